@@ -282,8 +282,9 @@ class LookupInterp:
     bound of the key), UB (upper bound) and END; std::lower_bound / upper_bound are given their specified results; a comparator call on
     the key and *LB / *UB / *(LB-1) is decided by the case."""
 
-    def __init__(self, prog, cmps, case):
+    def __init__(self, prog, cmps, case, lb_at_begin=False):
         self.prog, self.cmps, self.case = prog, cmps, case
+        self.lb_at_begin = lb_at_begin          # no element is ordered before the key: the lower bound is begin()
         self.depth = 0
         self.actions = []
 
@@ -291,6 +292,8 @@ class LookupInterp:
         if v[0] != 'it':
             return v
         a, off = v[1], v[2]
+        if a == 'BEG' and self.lb_at_begin:
+            a = 'LB'
         if self.case == 'ABSENT-END' and a in ('LB', 'UB'):
             a = 'END'
         elif a == 'UB':
@@ -367,6 +370,8 @@ class LookupInterp:
         v = self.canon(v)
         if v[1] == 'END' and v[2] >= 0:
             raise _LViolation('dereferences end() when no element is ordered at or after the key', node)
+        if self.lb_at_begin and v[1] in ('LB', 'END') and v[2] < 0:
+            raise _LViolation('dereferences a position before begin() when no element is ordered before the key', node)
         return ('elem', v[1], v[2])
 
     def truth(self, n, fr):
@@ -387,6 +392,13 @@ class LookupInterp:
                 a, b = self.canon(a), self.canon(b)
                 if a[1] == b[1]:
                     eq = a[2] == b[2]
+                elif 'BEG' in (a[1], b[1]) and not self.lb_at_begin:
+                    o_ = a if b[1] == 'BEG' else b
+                    g_ = b if b[1] == 'BEG' else a
+                    if g_[2] == 0 and o_[2] >= 0:
+                        eq = False                   # elements ordered before the key exist: begin() is before the bound and the end
+                    else:
+                        raise _LUnknown('position before the lower bound compared with begin()')
                 elif {a[1], b[1]} == {'LB', 'END'} and self.case != 'ABSENT-END':
                     lb = a if a[1] == 'LB' else b
                     if lb[2] <= 0:
@@ -416,6 +428,10 @@ class LookupInterp:
                 return True
             if anchor == 'LB' and off < 0:
                 return False
+        if a[0] == 'elem' and a[1] == 'END' and a[2] < 0 and b == ('key',):
+            return True                                      # no element is at or after the key: every element is ordered before it
+        if b[0] == 'elem' and b[1] == 'END' and b[2] < 0 and a == ('key',):
+            return False
         if b == ('key',) and a[0] == 'elem':
             anchor, off = a[1], a[2]
             if anchor == 'LB' and off >= 0:
@@ -550,8 +566,8 @@ def lookup_case(progs):
                 continue
             bad = None
             verdicts = {}
-            for case in ('ABSENT-END', 'ABSENT', 'PRESENT'):
-                ip = LookupInterp(prog, cmps, case)
+            for case, atb in [(c_, b_) for c_ in ('ABSENT-END', 'ABSENT', 'PRESENT') for b_ in (False, True)]:
+                ip = LookupInterp(prog, cmps, case, atb)
                 try:
                     try:
                         ip.run(f['body'], {('p', 0): ('key',)})
@@ -568,7 +584,7 @@ def lookup_case(progs):
                     break
                 res = canon_res(ip, res)
                 exp = expected_lookup(nm, case)
-                verdicts[case] = str(res)
+                verdicts[case + ('/first' if atb else '')] = str(res)
                 if not exp(res):
                     bad = (case, 'returns %s' % show(res), None)
                     break
@@ -828,8 +844,8 @@ def mutate_case(progs):
             if 'initializer_list' in t or 'node' in t.lower() or (nm == 'erase' and not t.rstrip().endswith('&')):
                 continue                                   # erase(position) is the vector's erase
             bad, verdicts = None, {}
-            for case in ('ABSENT-END', 'ABSENT', 'PRESENT'):
-                ip = LookupInterp(prog, cmps, case)
+            for case, atb in [(c_, b_) for c_ in ('ABSENT-END', 'ABSENT', 'PRESENT') for b_ in (False, True)]:
+                ip = LookupInterp(prog, cmps, case, atb)
                 try:
                     try:
                         ip.run(f['body'], {('p', 0): ('key',)})
@@ -881,8 +897,9 @@ class SSInterp:
     members and the std algorithms over the inline vector are primitives with the std::set / vector semantics of the case; members of
     SmallSet called on `this` are inlined."""
 
-    def __init__(self, prog, state, present):
+    def __init__(self, prog, state, present, pos_is_last=False):
         self.prog, self.state, self.present = prog, state, present
+        self.pos_is_last, self.asked_last = pos_is_last, False      # is the equivalent element the last one of the inline vector?
         self.actions = []
         self.added = False
         self.depth = 0
@@ -938,6 +955,8 @@ class SSInterp:
                 return ('bool', self.truth(n, fr))
             if op == '=':
                 l = A.strip(n.get('lhs'))
+                if self.elem_store(l, n.get('rhs'), fr):
+                    return LTOP
                 v = self.ev(n.get('rhs'), fr)
                 if isinstance(l, dict) and l.get('k') == 'ref' and l.get('dk') == 'local':
                     fr[('l', l.get('did'))] = v
@@ -967,6 +986,22 @@ class SSInterp:
         if k == 'call':
             return self.call(n, fr)
         return LTOP
+
+    def elem_store(self, lhs, rhs, fr):
+        """`*it = std::move(_vec.back())`: the equivalent element is overwritten with the last one (first half of swap-and-pop)."""
+        l = A.strip(lhs)
+        tgt = None
+        if isinstance(l, dict) and l.get('k') == 'un' and l.get('op') == '*':
+            tgt = self.ev(l.get('sub'), fr)
+        elif isinstance(l, dict) and l.get('k') == 'call' and l.get('op') == '*' and l.get('obj') is not None:
+            tgt = self.ev(l['obj'], fr)
+        if tgt is None or tgt[0] != 'vit':
+            return False
+        src = self.ev(rhs, fr)
+        if tgt == ('vit', 'POS') and src == ('velem', 'LAST') and not self.added:
+            self.actions.append('vassign')
+            return True
+        raise _LUnknown('assignment to an element of the inline vector the interpreter does not follow')
 
     def deref(self, v):
         if v[1] == 'POS' or (v == ('vit', 'VEND') and self.added):
@@ -998,6 +1033,9 @@ class SSInterp:
                 eq = (self.state == 'FULL') if o[1] > 0 else False
                 if self.added:
                     raise _LUnknown('size of the inline vector read after an addition')
+            elif a[0] == b[0] == 'vit' and {a[1], b[1]} == {'POS', 'LAST'}:
+                self.asked_last = True
+                eq = self.pos_is_last
             elif a[0] == b[0] and a[0] in ('vit', 'sit'):
                 eq = a[1] == b[1]
             elif a[0] == b[0] and a[0] in ('bool', 'int'):
@@ -1005,6 +1043,8 @@ class SSInterp:
             else:
                 raise _LUnknown('comparison the interpreter cannot decide')
             return eq if n.get('op') == '==' else not eq
+        if isinstance(n, dict) and n.get('k') in ('bin', 'call') and n.get('op') in ('<', '>', '<=', '>='):
+            raise _LUnknown('ordering comparison the interpreter cannot decide')
         v = self.ev(n, fr)
         if v[0] == 'bool':
             return v[1]
@@ -1035,6 +1075,8 @@ class SSInterp:
             return ('bool', self.truth(n, fr))
         if n.get('op') == '=' and n.get('obj') is not None and len(args) == 1:
             l = A.strip(n['obj'])
+            if self.elem_store(l, args[0], fr):
+                return LTOP
             v = self.ev(args[0], fr)
             if isinstance(l, dict) and l.get('k') == 'ref' and l.get('dk') == 'local':
                 fr[('l', l.get('did'))] = v
@@ -1078,14 +1120,20 @@ class SSInterp:
                 self.added = True
                 self.actions.append('vadd')
                 return ('velem', 'VEND')
-            if sn == 'back' and not args and self.added:
-                return ('velem', 'VEND')
+            if sn == 'back' and not args:
+                return ('velem', 'VEND') if self.added else ('velem', 'LAST')
             if sn == 'pop_back' and not args:
                 if self.actions and self.actions[-1] == 'vadd':
                     self.actions.pop()
                     self.added = False
                     return LTOP
-                raise _LViolation('pop_back removes an element of the set that is not the one just added')
+                if self.actions and self.actions[-1] == 'vassign':
+                    self.actions[-1] = 'verase'          # swap-and-pop: the key was overwritten with the last element, which is dropped
+                    return LTOP
+                if self.present and self.pos_is_last and self.asked_last and not self.added:
+                    self.actions.append('verase')        # the equivalent element is the last one
+                    return LTOP
+                raise _LViolation('pop_back removes an element of the set that is neither the one just added nor the equivalent element')
             if sn == 'erase' and len(args) == 1:
                 p = self.ev(args[0], fr)
                 if p != ('vit', 'POS'):
@@ -1210,8 +1258,8 @@ def ss_case(progs):
                 continue
             bad, verdicts = None, {}
             for state in ('SMALL', 'FULL', 'LARGE'):
-                for present in (True, False):
-                    ip = SSInterp(prog, state, present)
+                for present, last in ((True, False), (True, True), (False, False)):
+                    ip = SSInterp(prog, state, present, last)
                     try:
                         try:
                             ip.run(f['body'], {('p', 1): ('key',), ('p', 0): ('hint',)} if hinted else {('p', 0): ('key',)})
@@ -1243,7 +1291,9 @@ def ss_case(progs):
                     else:
                         want = ([('verase' if small else 'serase')] if present else [])
                         okres = res[0] in ('bool', 'int') and int(res[1]) == (1 if present else 0)
-                    verdicts['%s/%s' % (state, 'present' if present else 'absent')] = '%s -> %s' % (acts, res)
+                    if last and not ip.asked_last:
+                        continue
+                    verdicts['%s/%s%s' % (state, 'present' if present else 'absent', '/last' if last else '')] = '%s -> %s' % (acts, res)
                     if acts != want or not okres:
                         exp_res = _ss_show(wres) if nm in ('insert', 'emplace', 'emplace_hint') else ('the equivalent element, or the end of the active container' if nm == 'find' else ('1' if present else '0'))
                         bad = (state, present, 'it performs %s and returns %s; std::set semantics: %s, returning %s' % (acts or 'no modification', _ss_show(res), want or 'no modification', exp_res))
